@@ -1853,8 +1853,22 @@ class Exec:
         only its declared contract is known.  Its `requires` are proof obligations at this call site."""
         c = (self.frame.get('ext_funcs') or {}).get(f.key) or self.w.ext_methods.get(f.key) or self.w.ext_funcs[f.key]
         self.vf.note_assumption('assumed contract of code outside reach: %s' % f.key)
-        pnames = list(c['params'])
         pos = [a for a in args if not isinstance(a, tuple)]
+        if c.get('overloads'):
+            # several assumed contracts for one name, told apart by the kinds of the arguments (a function that dispatches on isinstance of an argument):
+            # the first alternative whose parameter types accept the actual arguments applies
+            chosen = None
+            for alt in c['overloads']:
+                try:
+                    for nme, a in list(zip(list(alt['params']), pos)) + [(k_, a_) for k_, a_ in kwargs.items() if k_ in alt['params']]:
+                        if isinstance(a, V):
+                            pty_ = self.w.ty(alt['params'][nme])
+                            coerce(a.t[1] if isinstance(a.ty, TOpt) and not isinstance(pty_, TOpt) else a, pty_)
+                    chosen = alt; break
+                except Unsupported: continue
+            if chosen is None: raise Unsupported('ext call %s: no overload accepts the arguments' % f.key)
+            c = chosen
+        pnames = list(c['params'])
         vals = {}
         def co_arg(a, ty):
             if isinstance(a, (CoroV, BoundMethod, FuncRef, LambdaV, ClassRef, BuiltinRef, ExcClass)) and isinstance(ty, TRef) and ty.universal:
